@@ -9,10 +9,10 @@ use verif_core::{json, Rng};
 use crate::backend::{Backend, Fs};
 use crate::model::Op;
 use crate::run::{
-    build_env, compare_recovered, continue_from, exec_op, outstanding, reboot, txs_of, Abort, CaseEnv,
+    build_env, compare_recovered, continue_from, exec_op, in_ctx, outstanding, reboot, txs_of, Abort, CaseEnv,
     MainTrace, RunState, Stats, World,
 };
-use crate::store::{CallKind, FaultyWalStore};
+use crate::store::CallKind;
 
 fn seg_index(files: &[(String, Vec<u8>)]) -> Option<usize> {
     files
@@ -33,6 +33,7 @@ pub fn torn_tails(
     rng: &mut Rng,
     cuts_per_record: usize,
     stats: &mut Stats,
+    sink: &mut Vec<Abort>,
 ) -> Result<(), Abort> {
     let mut prev_op = usize::MAX;
     let mut prev_len = 0usize;
@@ -73,12 +74,25 @@ pub fn torn_tails(
                 if cp.kind == CallKind::Append { "frame" } else { "commit-marker" },
                 env.ops[i]
             );
-            let mut w = reboot::<Fs>(be, &durable, None, &why)?;
-            compare_recovered::<Fs>(env, &w.coord, &pre.coord, &txs_of(&pre.logical), true, &why, stats)?;
-            stats.crash_torn += 1;
-            stats.outstanding_at_crash += outstanding(&pre.coord, env);
-            let mut rs = pre.rs.clone();
-            continue_from(env, be, &mut w, &mut rs, i, main, false, &why, stats)?;
+            let class = if cp.kind == CallKind::Append { "torn-frame-record" } else { "torn-commit-record" };
+            let r = (|| -> Result<(), Abort> {
+                let mut w = reboot::<Fs>(be, &durable, None, &why)?;
+                compare_recovered::<Fs>(env, &w.coord, &pre.coord, &txs_of(&pre.logical), true, &why, stats)?;
+                stats.crash_torn += 1;
+                stats.outstanding_at_crash += outstanding(&pre.coord, env);
+                let mut rs = pre.rs.clone();
+                continue_from(env, be, &mut w, &mut rs, i, main, false, true, &why, stats)
+            })();
+            match in_ctx(r, class, &why) {
+                Ok(()) => {}
+                // keep enumerating: one torn point must not hide the others
+                Err(v @ Abort::Violation { .. }) => {
+                    if sink.len() < 64 {
+                        sink.push(v);
+                    }
+                }
+                Err(h) => return Err(h),
+            }
         }
     }
     Ok(())
@@ -142,11 +156,7 @@ pub fn child_fs_trace(seed: u64) -> i32 {
     let Ok(coord) = warp_core::external_action::ExternalActionCoordinatorV1::recover(&store) else {
         return 3;
     };
-    let mut w: World<Fs> = World {
-        store: FaultyWalStore::new(store),
-        coord,
-        epoch,
-    };
+    let mut w: World<Fs> = World::new(store, coord, epoch);
     let mut rs = RunState::new(n);
     marker(&mut mark, "C17MARK begin");
     for (i, op) in env.ops.clone().iter().enumerate() {
@@ -284,4 +294,47 @@ pub fn strace_lane(seed: u64) -> Result<StraceOutcome, String> {
 #[allow(dead_code)]
 pub fn _unused() -> serde_json::Value {
     json!({})
+}
+
+/// Minimal stand-alone reproduction of the torn-frame-record finding
+/// (`--child torn-probe`): prints what each recovery entry point answers.
+pub fn child_torn_probe(seed: u64) -> i32 {
+    use warp_core::causal_wal::{recover_filesystem_store, FilesystemWalStore, RecoveryAccessMode, WalStorePort};
+    use warp_core::external_action::{record_external_action_request, ExternalActionCoordinatorV1};
+    let env = match build_env(seed, 0, "probe", 1, (3, 3)) {
+        Ok(e) => e,
+        Err(e) => {
+            println!("env: {e}");
+            return 3;
+        }
+    };
+    let mut be = Fs::new("c17-probe");
+    let Ok((store, _)) = be.fresh() else { return 3 };
+    let root = store.root().to_path_buf();
+    let seg = store.segment_path();
+    drop(store);
+    {
+        use std::io::Write;
+        let mut f = std::fs::OpenOptions::new().append(true).open(&seg).expect("segment");
+        f.write_all(b"E").expect("torn byte");
+    }
+    let mut store = FilesystemWalStore::open(&root, crate::backend::seg1()).expect("reopen");
+    let epoch = be.activate(&mut store).expect("epoch");
+    let rec = ExternalActionCoordinatorV1::recover(&store);
+    println!("recover over torn segment      : {:?}", rec.as_ref().map(|c| c.observed_index().len()));
+    let Ok(mut coord) = rec else { return 0 };
+    let r = record_external_action_request(
+        &mut store,
+        &mut coord,
+        crate::run::ctx(&env, epoch, be.durability(), 0, 0),
+        env.slots[0].request,
+    );
+    println!("record_external_action_request : {:?}", r.as_ref().map(|t| verif_core::hex4(&t.request_commit_digest())));
+    println!("read_snapshot                  : {:?}", store.read_snapshot().map(|s| (s.frames.len(), s.commits.len())));
+    println!("recover (same store)           : {:?}", ExternalActionCoordinatorV1::recover(&store).map(|c| c.observed_index().len()));
+    drop(store);
+    println!("recover_filesystem_store RO    : {:?}", recover_filesystem_store(&root, RecoveryAccessMode::ReadOnly).map(|r| r.transactions.len()));
+    println!("recover_filesystem_store RW    : {:?}", recover_filesystem_store(&root, RecoveryAccessMode::Writable).map(|r| r.transactions.len()));
+    println!("FilesystemWalStore::open       : {:?}", FilesystemWalStore::open(&root, crate::backend::seg1()).map(|_| ()));
+    0
 }
